@@ -1900,7 +1900,7 @@ func (x *Exec) applyFocus(st *State) {
 
 // safety emits an obligation (nopanic functions) or an assumption for an implicit run-time check.
 func (x *Exec) safety(st *State, what string, cond string, pos token.Pos) {
-	if x.fc != nil && x.fc.NoPanic {
+	if x.fc != nil && (x.fc.NoPanic || x.fc.NoPanicKinds[what]) {
 		x.emit(st, "nopanic", x.funcKeyOf(x.fn)+"/nopanic:"+what, Clause{Src: x.L.pos(pos)}, cond)
 	}
 	x.assume(st, cond)
